@@ -198,3 +198,43 @@ gas_only!(c22_gas_wdmm, WDMM, wdmm, |i| [rid(i.ra), rid(i.rb), rid(i.rc), rid(i.
 gas_only!(c22_gas_wqmm, WQMM, wqmm, |i| [rid(i.ra), rid(i.rb), rid(i.rc), rid(i.rd)]);
 gas_only!(c22_gas_wqcm, WQCM, wqcm, |i| [rid(i.ra), rid(i.rb), rid(i.rc), Imm06::new(0x20)]);
 gas_only!(c22_gas_wqop, WQOP, wqop, |i| [rid(i.ra), rid(i.rb), rid(i.rc), Imm06::new(0x20)]);
+
+// Division by a (direct, concrete) zero divisor: with UNSAFEMATH the result is zero and $err = 1,
+// otherwise ArithmeticError.  Register ids concrete, dividend symbolic (from memory), destination
+// pointer / flags / schedule symbolic.
+macro_rules! div_zero {
+    ($name:ident, $Op:ident, $gas:ident, $n:literal) => {
+        wh!($name, {
+            let (mut i, mem) = any_state();
+            i.ra = 0x10; i.rb = 0x11; i.rc = 0x12;
+            i.regs[0x12] = 0;          // direct rhs = 0
+            i.regs[0x11] = 0;          // lhs read from address 0 (inside the initialised stack)
+            let cost = i.gas.$gas;
+            let dst = i.regs[0x10];
+            let before = mem.verif_flat(i.a);
+            let mut vm = mk_vm(i.regs, mem, i.gas.clone());
+            let res = op::$Op::new(rid(i.ra), rid(i.rb), rid(i.rc), Imm06::new(0)).execute(&mut vm);
+            if let Some(mut exp) = charge(&i.regs, &vm.registers, &res, cost, i.probe) {
+                if !flag_unsafemath(i.regs[R_FLAG]) {
+                    expect_panic(&res, PanicReason::ArithmeticError);
+                    assert!(vm.memory.verif_flat(i.a) == before);
+                    kani::cover!(true, "division by zero panics");
+                } else if let Some(r) = access_spec(&i.regs, LS, dst as u128, $n, true) {
+                    expect_panic(&res, r);
+                    assert!(vm.memory.verif_flat(i.a) == before);
+                    exp[R_OF] = vm.registers[R_OF]; exp[R_ERR] = vm.registers[R_ERR];
+                } else {
+                    assert!(matches!(res, Ok(ExecuteState::Proceed)));
+                    exp[R_OF] = 0; exp[R_ERR] = 1; exp[R_PC] = i.regs[R_PC] + 4;
+                    let a = i.a as u128;
+                    if a >= dst as u128 && a < dst as u128 + $n { assert!(vm.memory.verif_flat(i.a) == Some(0)); kani::cover!(true, "zero result written, $err = 1"); }
+                    else { assert!(vm.memory.verif_flat(i.a) == before); }
+                }
+                assert!(vm.registers[i.probe] == exp[i.probe]);
+            }
+            core::mem::forget(vm);
+        });
+    };
+}
+div_zero!(c22_wddv_by_zero, WDDV, wddv, 16);
+div_zero!(c22_wqdv_by_zero, WQDV, wqdv, 32);
